@@ -364,7 +364,7 @@ impl Check for C17 {
         (v, info)
     }
     fn rule(&self) -> String {
-        "0-8 in-flight clients each driven to a generated progress point (accepted / status request answered / Encryption Request received / everything sent and waiting for a 50-300 ms backend), shutdown requested at that moment, then 1-3 late clients connecting 0-5000 us after cancel() returned, listener runtime with 1-4 workers. non-trivial = at least one in-flight connection is waiting on the backend when shutdown is requested; distinct = distinct case".into()
+        "0-8 in-flight clients each driven to a generated progress point (accepted / status request answered / Encryption Request received / everything sent and waiting for a 50-300 ms backend), shutdown requested at that moment, then 1-6 late clients (already spinning on a flag, each on its own thread) connecting 0-5000 us after cancel() returned, listener runtime with 1-4 workers. non-trivial = at least one in-flight connection is waiting on the backend when shutdown is requested; distinct = distinct case".into()
     }
     fn assumptions(&self) -> Vec<String> {
         vec![
